@@ -18,7 +18,8 @@ REQUIRED_PATHS = ['int32:negative', 'int32:non-negative', 'motors:both-off', 'mo
                   'motors:only-2:preset', 'motors:only-2:mode-already-set', 'nickname', 'single-slot', 'sequence']
 
 RULE = ('exhaustive: 29 slots x boundary int32 values; {-1..6}^2 motor requests x all 40 prior motor states '
-        '(m1, m2, mode 1..5, auto-enable); boundary nicknames; random operation sequences (<= 30 ops) over random '
+        '(m1, m2, mode 1..5, auto-enable); nicknames with trimmed length 13..16 x whitespace runs of length 0..9 on either side '
+        '(raw length up to 30) and random ones; random operation sequences (<= 30 ops) over random '
         'prior boards; a case is non-trivial when it writes to the board; distinct by (prior state, ops)')
 TRUSTED = ['Model/C16.lean boardStep/parseReq/boardRecv = "a board that implements the documented SL/QL/ST/QT/EM/QE/CU,50 '
            'commands" (EBB command reference, firmware 3.x future syntax); cross-checked here against the '
@@ -29,8 +30,9 @@ TRUSTED = ['Model/C16.lean boardStep/parseReq/boardRecv = "a board that implemen
            'harness fake port + co-simulation glue']
 ASSUMPTIONS = ['the EBB3 object is connected and has no recorded error when a round trip starts',
                'int32 values, slots 0..28 (single slots 0..31, bytes 0..255), integer resolutions',
-               'nicknames: ASCII, printable after trimming, at most 16 characters after trimming, not containing the '
-               'protocol\'s error marker "Err:"',
+               'nicknames: the TRIMMED name is at most 16 printable ASCII characters and does not contain the protocol\'s '
+               'error marker "Err:"; the raw argument may carry any amount of leading/trailing ASCII whitespace '
+               '(raw length unconstrained: the unchanged write_nickname only trims, it never cuts)',
                'board invariant: 32 slots of 0..255, mode 1..5, stored name printable ASCII (edge blanks allowed) without "Err:"']
 STAGED = []
 
@@ -412,13 +414,35 @@ def rand_board(rng):
     return (vars_, name, rng.random() < 0.5, rng.random() < 0.5, rng.randint(1, 5), rng.random() < 0.5)
 
 
+WS_RUNS = ['', '', ' ', '  ', '\t', ' \n', '\r\n ', '   ', '\t\t', ' \t ', '    ', '\t \t \t', ' ' * 8, '\n' + ' ' * 5 + '\t']
+
+
 def rand_nick(rng):
-    core = rand_name(rng)
-    if core.strip(PY_SPACE) != core:
-        core = core.strip(PY_SPACE)
-    pre = rng.choice(['', '', ' ', '  ', '\t', ' \n', '\r\n '])
-    post = rng.choice(['', '', ' ', '\n', ' \t ', '\r'])
+    """raw argument = blanks + trimmed name + blanks. The property's domain is on the TRIMMED name (<= 16 printable
+    ASCII, no 'Err:'); the raw argument may be any amount longer (raw length up to ~40)."""
+    core = rand_name(rng).strip(PY_SPACE)
+    if rng.random() < 0.35:
+        # trimmed length 14..16 (the ST limit and just below it) with raw length pushed beyond 16
+        n = rng.choice([14, 15, 16, 16])
+        while True:
+            core = ''.join(rng.choice(NICK_CHARS) for _ in range(n))
+            if 'Err:' not in core and core.strip(PY_SPACE) == core:
+                break
+    pre = rng.choice(WS_RUNS)
+    post = rng.choice(WS_RUNS)
     return pre + core + post
+
+
+def boundary_nicks():
+    """trimmed length 14..17 x leading/trailing whitespace runs of several lengths and kinds (raw length up to 30)"""
+    out = []
+    alpha = 'ABCDEFGHIJKLMNOPQ'
+    for tl in (13, 14, 15, 16):
+        for core in (alpha[:tl], ('A B  ' + alpha)[:tl - 1] + 'z'):
+            for pre in ('', ' ', '  ', '\t', '   ', ' \t', ' ' * 4, ' ' * 8, '\r\n\t  '):
+                for post in ('', ' ', '\t\n', ' ' * 3, ' ' * 9):
+                    out.append(pre + core + post)
+    return out
 
 
 def rand_op(rng):
@@ -484,7 +508,8 @@ def judge(ctx, case, tag, report=True):
     board = PyBoard(b0)
     ref = Ref(b0, py0[2])
     problems = []
-    before = {'board': board.state(), 'name': py0[2]}
+    snaps = [(board.state(), py0[2])]      # snaps[k] = (board state, self.name) just before operation k
+    first = {}
 
     def hook(k, op, v, e):
         n_before = len(problems)
@@ -503,35 +528,45 @@ def judge(ctx, case, tag, report=True):
             problems.append((f'{kind}: motor enables / global step mode wrong on the board', k,
                              f'(m1, m2, mode) = {(st[2], st[3], st[4])}', f'{ref.motor_state()}'))
             ref.m1, ref.m2, ref.mode = st[2], st[3], st[4]
-        if st[1] != ref.bname:
-            # The statement speaks of the nickname as READ BACK; how it is stored is compared between implementation
-            # and model (run A/B), not judged here. Follow the board so that the read-back is judged on its own.
-            ref.bname = st[1]
+        # The statement speaks of the nickname as READ BACK: `ref.bname` is the nickname that was WRITTEN (trimmed), or
+        # the prior board's name; every later query_nickname must yield its trimmed form. In which form the board
+        # stores it is compared between implementation and model (runs A/B) and is neither judged nor followed here.
         if kind == 'qn' and e.name != ref.pyname:
-            problems.append(('nickname read back is not the trimmed nickname', k, repr(e.name), repr(ref.pyname)))
+            problems.append(('nickname read back is not the trimmed written nickname', k, repr(e.name),
+                             repr(ref.pyname)))
+            ref.bname = st[1]           # one fault, one report
             ref.pyname = e.name
         if e.err is not None:
             problems.append((f'{kind}: an error was recorded on a conforming board', k, repr(e.err), 'no error'))
         if kind == 'wn':
             e.name = None           # so that a following query_nickname is observed as a real read-back
             ref.pyname = None
-        if len(problems) > n_before and 'first_fault' not in before:
-            before['first_fault'] = (k, before['board'], before['name'])
-        before['board'], before['name'] = board.state(), e.name
+        if len(problems) > n_before and 'k' not in first:
+            first['k'] = k
+        snaps.append((board.state(), e.name))
 
     vals, exc, pyf, written, e = run_real(py0, board, ops, hook)
     if exc is not None:
         problems.append((f'{ops[exc[1]][0]}: raised {exc[0]}', exc[1], exc[2], 'a value'))
-        if 'first_fault' not in before:
-            before['first_fault'] = (exc[1], before['board'], before['name'])
+        first.setdefault('k', exc[1])
     if problems and report:
-        k, bst, nm = before['first_fault']
+        k = first['k']
+        candidates = []
+        if len(ops) > 1:
+            candidates.append((snaps[k], [ops[k]]))
+            if ops[k][0] == 'qn':
+                # a wrong read-back is the fault of the write before it: minimal history = that write + the read
+                j = max([i for i in range(k) if ops[i][0] == 'wn'], default=None)
+                if j is not None and (j, k) != (0, 1):
+                    candidates.append((snaps[j], [ops[j], ops[k]]))
         shrunk = False
-        if len(ops) > 1 and board_ok(bst):
-            small = ((True, False, nm), bst, [ops[k]])
-            shrunk = judge(ctx, small, tag + ':shrunk', report=False)[5]
-            if shrunk:
-                judge(ctx, small, tag + ':shrunk', report=True)
+        for (bst, nm), small_ops in candidates:
+            if board_ok(bst):
+                small = ((True, False, nm), bst, small_ops)
+                if judge(ctx, small, tag + ':shrunk', report=False)[5]:
+                    judge(ctx, small, tag + ':shrunk', report=True)
+                    shrunk = True
+                    break
         if not shrunk:
             for what, k, obs, req in problems[:3]:
                 ctx.violate(what, dict(inp, failing_op_index=k, tag=tag), obs, req)
@@ -645,7 +680,7 @@ def build_cases(ctx):
     nicks = ['', ' ', 'a', 'AxiDraw 1', ' lead', 'trail ', '  both  ', '\tTab\n', 'x' * 16, ' ' + 'y' * 16 + ' ',
              '  ' + 'z' * 16, 'a b  c', ',', ',,', 'a,b', 'QT', 'ST,1', 'Err', 'rr:', 'E r r :', '0', '-1', '16,0',
              'name\r\n', '\x1f n \x1c']
-    for n in nicks + [rand_nick(rng) for _ in range(ctx.n(150))]:
+    for n in nicks + boundary_nicks() + [rand_nick(rng) for _ in range(ctx.n(300))]:
         cases.append((ok_py, rand_board(rng), [('wn', n), ('qn',)], 'nick'))
     for _ in range(ctx.n(60)):
         cases.append(((True, False, rng.choice([None, 'old'])), rand_board(rng), [('qn',)], 'nick-prior'))
